@@ -258,6 +258,14 @@ def run(script, ctx):
                 checks.append(("generate_ctrlptsw2d o generate_ctrlpts2d_weights", c.generate_ctrlptsw2d(c.generate_ctrlpts2d_weights(q2)), q2))
                 checks.append(("flip_ctrlpts2d o flip_ctrlpts2d", c.flip_ctrlpts2d(c.flip_ctrlpts2d(q2)), q2))
                 checks.append(("flip_ctrlpts_u o flip_ctrlpts", c.flip_ctrlpts_u(c.flip_ctrlpts(q, sizes[0], sizes[1]), sizes[0], sizes[1]), q))
+                # documented meaning: v-row order (index v + u*size_v) <-> u-row order (index u + v*size_u), [u][v] <-> [v][u]
+                su, sv = sizes
+                urow = [q[v + u * sv] for v in range(sv) for u in range(su)]
+                checks.append(("flip_ctrlpts (v-row -> u-row order)", c.flip_ctrlpts(q, su, sv), urow))
+                checks.append(("flip_ctrlpts_u (u-row -> v-row order)", c.flip_ctrlpts_u(urow, su, sv), q))
+                checks.append(("flip_ctrlpts2d ([u][v] -> [v][u])", c.flip_ctrlpts2d(q2), [[q2[u][v] for u in range(su)] for v in range(sv)]))
+                checks.append(("generate_ctrlpts2d_weights", c.generate_ctrlpts2d_weights(q2),
+                               [[list(P[v + u * sv]) + [W[v + u * sv]] for v in range(sv)] for u in range(su)]))
             for nm, got, exp in checks:
                 ok, why = close(got, exp, TOL)
                 if not ok:
